@@ -801,6 +801,20 @@ func navCheck(w *mc.Worker, prog *gen.Program, pr *gen.Printed, text string, sta
 			}
 		}
 	}
+	// positions outside the text: lines past the end, a column far past the end of the first line
+	for _, q := range [][2]int{{len(lines) + 2, 0}, {len(lines) + 2, 7}, {0, 1 << 20}, {1 << 20, 1 << 20}} {
+		if bad != "" {
+			break
+		}
+		hv, _, p1 := s.call("textDocument/hover", posParams(uri, q[0], q[1]))
+		df, _, p2 := s.call("textDocument/definition", posParams(uri, q[0], q[1]))
+		npos++
+		if p1 != "" || p2 != "" {
+			bad, clause = fmt.Sprintf("hover/definition at %d:%d (outside the text) panicked: %s%s", q[0], q[1], p1, p2), "C19.panic:query"
+		} else if hv != "null" || df != "null" {
+			bad, clause = fmt.Sprintf("position %d:%d is outside the text, yet hover=%s definition=%s", q[0], q[1], hv, df), "C19.navigation"
+		}
+	}
 	w.Eval(text, nVarUses > 0, fmt.Sprintf("varuses>0=%v ok=%v", nVarUses > 0, bad == ""))
 	if bad != "" {
 		w.Violation(clause, bad, len(text), Case{Script: text})
